@@ -4,7 +4,7 @@ from __future__ import annotations
 import ast
 from typing import List, Optional
 
-from fjsa.flow import FuncFlow, call_args, guards_of, same, txt
+from fjsa.flow import FuncFlow, call_args, guards_of, lt_form, same, txt
 from fjsa.model import FuncInfo
 from fjsa.report import Check
 from fjsa.rules import api, entries, roundcheck, wmean
@@ -180,7 +180,7 @@ def _mime_lite(check: Check):
         d = clip_defs[0]
         c = d.value
         g = guards_of(ff, d.node.ast)
-        guarded = [t for t, pol in g if pol and isinstance(t, ast.Compare) and isinstance(t.ops[0], ast.IsNot) and isinstance(
+        guarded = [t for t, pol in g if (not pol) and isinstance(t, ast.Compare) and isinstance(t.ops[0], ast.Is) and isinstance(
             t.left, ast.Name) and t.left.id == 'client_delta_clip_norm']
         arg_ok = len(c.args) == 2 and isinstance(c.args[0], ast.Name) and c.args[0].id == x.id and txt(c.args[1]) == 'client_delta_clip_norm'
         # the If holding the clip dominates the accumulation statement
@@ -298,7 +298,8 @@ def _hyp(check: Check):
     lm = roundcheck.check_loop_mean_site(check, repo, es, inv, triples, 'R-HYP.mean', 'clients')
     # None for empty clusters
     g = guards_of(eff, inv)
-    okg = any(pol and isinstance(t, ast.Compare) and isinstance(t.ops[0], ast.Gt) and same(t.left, inv.args[1]) for t, pol in g)
+    okg = any(pol and lt_form(t) is not None and lt_form(t)[1] and same(lt_form(t)[2], inv.args[1]) and isinstance(lt_form(t)[0], ast.Constant) and
+              lt_form(t)[0].value == 0 for t, pol in g)
     ifn = _enclosing_if(eff, inv)
     none_arm = ifn is not None and any(isinstance(c, ast.Call) and isinstance(c.func, ast.Attribute) and c.func.attr == 'append' and c.args and
                                        isinstance(c.args[0], ast.Constant) and c.args[0].value is None for s in ifn.orelse for c in ast.walk(s))
